@@ -8,6 +8,9 @@
 import Valida.Cond
 import ValidaSpec.Meaning
 import ValidaProofs.Lemmas.Basic
+import ValidaProofs.Lemmas.Filter
+import ValidaProofs.Lemmas.Partition
+import ValidaProofs.Lemmas.Meaning
 namespace ValidaProofs
 open Valida ValidaGen ValidaGen.Callables ValidaSpec
 open PyVal (pyEq numKey scale hashable instOf)
@@ -20,33 +23,35 @@ open PyVal (pyEq numKey scale hashable instOf)
     `unmodelled` (operations on an opaque `DataPath` object) is the only other possibility. -/
 theorem C01_callable_safe (fn : String) (x : PyVal) (pos : List PyVal) (kw : List (String × PyVal)) :
     RaisesOnly Caught (callFn fn x pos kw) ∧ ReturnsBool (callFn fn x pos kw) := by
-  sorry
+  exact callFn_safe fn x pos kw
 
 /-- One loop iteration of `Condition._filter` never lets an exception escape, whatever the datum:
     given arguments whose resolution raises only caught exceptions (literals never raise). -/
 theorem C01_item_total (pre fn : String) (args : List RArg) (kwargs : List (String × RArg)) (datum : PyVal)
     (hargs : ∀ a ∈ args, RaisesOnly Caught a) (hkw : ∀ a ∈ kwargs, RaisesOnly Caught a.2) :
     ∀ e, evalItem pre fn args kwargs datum = .error e → e = .unmodelled := by
-  sorry
+  exact evalItem_error pre fn args kwargs datum hargs hkw
 
 /-- Filtering wrapped data with a single condition with literal arguments never aborts. -/
 theorem C01_never_aborts (l : Leaf PyVal) (d : DataV) :
     ∀ e, filterAux (Cond.lit (.leaf l)) d false = .error e → e = .unmodelled := by
-  sorry
+  exact filterAux_leaf_error l d
 
 /-- The entry point `filter` on a raw document only refuses: non-containers and empty containers
     (`Data(...)`), a key-kind condition on a list, an index-kind condition on a mapping – all `TypeError`. -/
 theorem C01_filter_errors (l : Leaf PyVal) (doc : PyVal) :
     ∀ e, filterPy (Cond.lit (.leaf l)) doc = .error e → e = .typeError ∨ e = .unmodelled := by
-  sorry
+  exact filterPy_leaf_error l doc
 
 theorem C01_kind_refusal_key (l : Leaf PyVal) (xs : List PyVal) (h : Cond.likeOf l.cls = "key") :
     filterPy (Cond.lit (.leaf l)) (.list xs) = .error .typeError := by
-  sorry
+  simp [filterPy, Cond.lit, Cond.mapArgs, h]
+  rfl
 
 theorem C01_kind_refusal_index (l : Leaf PyVal) (kvs : List (PyVal × PyVal)) (h : Cond.likeOf l.cls = "index") :
     filterPy (Cond.lit (.leaf l)) (.dict kvs) = .error .typeError := by
-  sorry
+  simp [filterPy, Cond.lit, Cond.mapArgs, h]
+  rfl
 
 /-! ### one boolean per item, in item order; the partition -/
 
@@ -55,7 +60,7 @@ theorem C01_result_shape (l : Leaf PyVal) (d : DataV) (fd : FD) (d' : DataV) (p 
     (h : filterAux (Cond.lit (.leaf l)) d false = .ok (fd, d', p)) :
     d' = d ∧ p = none ∧
       (fd.result.length = d.values.length ∨ fd.result.length = d.keys.length) := by
-  sorry
+  exact filterAux_leaf_ok l d fd d' p h
 
 /-- the i-th boolean is the callable's verdict on the i-th item's datum (after the pre-processor);
     "not defined" (any caught exception) counts as `false` -/
@@ -65,105 +70,105 @@ theorem C01_item_meaning (pre fn : String) (args : List PyVal) (kwargs : List (S
     f.result = (match applyPre pre datum with
                 | .ok p => (asBool (callFn fn p args kwargs)).getD false
                 | .error _ => false) := by
-  sorry
+  exact evalItem_meaning pre fn args kwargs datum f h
 
 /-- selected values / keys are a sub-list of the items, in original order -/
 theorem C01_partition_sublist (res : List Bool) (xs : List PyVal) : (pickBy res xs).Sublist xs := by
-  sorry
+  exact pickBy_sublist res xs
 
 /-- selected items are exactly those whose boolean is true -/
 theorem C01_partition_selected (res : List Bool) (xs : List PyVal) (h : res.length = xs.length) :
     pickBy res xs = (List.range xs.length).filterMap (fun i => if res.getD i false then xs[i]? else none) := by
-  sorry
+  exact pickBy_eq res xs h
 
 /-- failure indices are exactly the positions holding `false`, ascending -/
 theorem C01_partition_failures (res : List Bool) :
     (∀ i, i ∈ failureIndices res ↔ (i < res.length ∧ res[i]? = some false)) ∧
     (failureIndices res).Pairwise (· < ·) := by
-  sorry
+  exact ⟨mem_failureIndices res, failureIndices_pairwise res⟩
 
 /-- every item is either selected or a failure, never both -/
 theorem C01_partition_count (res : List Bool) (xs : List PyVal) (h : res.length = xs.length) :
     (pickBy res xs).length + (failureIndices res).length = xs.length := by
-  sorry
+  exact partition_count res xs h
 
 /-! ### documented meaning of the callables (App. D) -/
 
 theorem C01_equal_to (x v : PyVal) : asBool (Callables.equal_to x v) = ValidaSpec.equal_to x v := by
-  sorry
+  exact equal_to_meaning x v
 theorem C01_not_equal_to (x v : PyVal) : asBool (Callables.not_equal_to x v) = ValidaSpec.not_equal_to x v := by
-  sorry
+  exact not_equal_to_meaning x v
 theorem C01_less_than (x v : PyVal) : asBool (Callables.less_than x v) = ordered .lt x v := by
-  sorry
+  exact asBool_cmp .lt x v
 theorem C01_greater_than (x v : PyVal) : asBool (Callables.greater_than x v) = ordered .gt x v := by
-  sorry
+  exact asBool_cmp .gt x v
 theorem C01_less_than_or_equal_to (x v : PyVal) :
     asBool (Callables.less_than_or_equal_to x v) = ordered .le x v := by
-  sorry
+  exact asBool_cmp .le x v
 theorem C01_greater_than_or_equal_to (x v : PyVal) :
     asBool (Callables.greater_than_or_equal_to x v) = ordered .ge x v := by
-  sorry
+  exact asBool_cmp .ge x v
 theorem C01_in (x c : PyVal) (hc : ∀ n, c ≠ .obj n) : asBool (Callables.in_ x c) = ValidaSpec.in_ x c := by
-  sorry
+  exact in_meaning x c hc
 theorem C01_not_in (x c : PyVal) (hc : ∀ n, c ≠ .obj n) :
     asBool (Callables.not_in x c) = (ValidaSpec.in_ x c).map (!·) := by
-  sorry
+  exact not_in_meaning x c hc
 
 /-- `in_range(l, u)` with integer bounds: true iff the datum equals an integer of the half-open range -/
 theorem C01_in_range (x l u : PyVal) (lo hi : Int) (hl : Py.asInt l = some lo) (hu : Py.asInt u = some hi) :
     ∃ r, Callables.in_range x l u = .ok (.bool r) ∧ (r = true ↔ InRange x lo hi) := by
-  sorry
+  exact inRange_spec x l u lo hi hl hu
 theorem C01_not_in_range (x l u : PyVal) (lo hi : Int) (hl : Py.asInt l = some lo) (hu : Py.asInt u = some hi) :
     ∃ r, Callables.not_in_range x l u = .ok (.bool r) ∧ (r = true ↔ ¬ InRange x lo hi) := by
-  sorry
+  exact notInRange_spec x l u lo hi hl hu
 /-- non-integer bounds: not defined -/
 theorem C01_in_range_undefined (x l u : PyVal) (h : Py.asInt l = none ∨ Py.asInt u = none) :
     asBool (Callables.in_range x l u) = none ∧ asBool (Callables.not_in_range x l u) = none := by
-  sorry
+  exact in_range_undefined_meaning x l u h
 
 theorem C01_truthy (x : PyVal) : asBool (Callables.truthy x) = some (PyVal.truthy x) := by
-  sorry
+  exact truthy_meaning x
 theorem C01_falsy (x : PyVal) : asBool (Callables.falsy x) = some (!PyVal.truthy x) := by
-  sorry
+  exact falsy_meaning x
 theorem C01_null (x : PyVal) : asBool (Callables.null x) = some true := by
-  sorry
+  exact null_meaning x
 
 /-- integers: `has_factor(v)` is divisibility of the datum by `v`; a zero divisor is undefined -/
 theorem C01_has_factor_int (a c : Int) :
     asBool (Callables.has_factor (.int a) (.int c)) = if c = 0 then none else some (decide (c ∣ a)) := by
-  sorry
+  exact has_factor_int_meaning a c
 theorem C01_factor_of_int (a c : Int) :
     asBool (Callables.factor_of (.int a) (.int c)) = if a = 0 then none else some (decide (a ∣ c)) := by
-  sorry
+  exact factor_of_int_meaning a c
 /-- a string datum (or argument) never satisfies a divisibility condition -/
 theorem C01_has_factor_str (s : String) (v : PyVal) :
     asBool (Callables.has_factor (.str s) v) = none ∨ asBool (Callables.has_factor (.str s) v) = some false := by
-  sorry
+  exact has_factor_str_meaning s v
 
 theorem C01_equal_to_approx_int (a c t : Int) :
     asBool (Callables.equal_to_approx (.int a) (.int c) (.int t)) = some (decide (((a - c).natAbs : Int) < t)) := by
-  sorry
+  exact equal_to_approx_int_meaning a c t
 
 /-- `is_instance(T₁, …)` with type arguments: the datum is an instance of one of them (bool ⊂ int) -/
 theorem C01_is_instance (x : PyVal) (ts : List PyType) :
     asBool (Callables.is_instance x (ts.map PyVal.type)) = some (ts.any (fun t => instOf x t)) := by
-  sorry
+  exact is_instance_meaning x ts
 
 theorem C01_keys_contain (x k : PyVal) (hx : ∀ n, x ≠ .obj n) :
     asBool (Callables.keys_contain x k) =
       (match keysOf x with
        | some xs => if hashable k then some (decide (MemEq k xs)) else none
        | none => none) := by
-  sorry
+  exact keys_contain_meaning x k hx
 
 theorem C01_keys_contain_any_of (x : PyVal) (xs ks : List PyVal) (hx : keysOf x = some xs)
     (hk : ∀ k ∈ ks, hashable k = true) :
     asBool (Callables.keys_contain_any_of x ks) = some (decide (∃ k ∈ ks, MemEq k xs)) := by
-  sorry
+  exact keys_contain_any_of_meaning x xs ks hx hk
 theorem C01_keys_contain_all_of (x : PyVal) (xs ks : List PyVal) (hx : keysOf x = some xs)
     (hk : ∀ k ∈ ks, hashable k = true) :
     asBool (Callables.keys_contain_all_of x ks) = some (decide (∀ k ∈ ks, MemEq k xs)) := by
-  sorry
+  exact keys_contain_all_of_meaning x xs ks hx hk
 /-- keys of a non-mapping are undefined as soon as one key is inspected -/
 theorem C01_keys_of_non_mapping (x k : PyVal) (ks : List PyVal) (hx : keysOf x = none) (hx' : ∀ n, x ≠ .obj n) :
     asBool (Callables.keys_contain x k) = none ∧
@@ -173,7 +178,7 @@ theorem C01_keys_of_non_mapping (x k : PyVal) (ks : List PyVal) (hx : keysOf x =
     asBool (Callables.allowed_keys x ks) = none ∧
     asBool (Callables.required_keys x ks) = none ∧
     asBool (Callables.forbidden_keys x ks) = none := by
-  sorry
+  exact keys_of_non_mapping_meaning x k ks hx hx'
 
 /-- the `N_of` family counts, with multiplicity, how many of `ks` are keys of the mapping -/
 theorem C01_keys_contain_N_of (x N : PyVal) (xs ks : List PyVal) (hx : keysOf x = some xs)
@@ -181,33 +186,33 @@ theorem C01_keys_contain_N_of (x N : PyVal) (xs ks : List PyVal) (hx : keysOf x 
     Callables.keys_contain_N_of x N (.list ks) = Py.eq (.int (countPresent xs ks)) N ∧
     Callables.keys_contain_at_least_N_of x N (.list ks) = Py.ge (.int (countPresent xs ks)) N ∧
     Callables.keys_contain_at_most_N_of x N (.list ks) = Py.le (.int (countPresent xs ks)) N := by
-  sorry
+  exact keys_contain_N_of_meaning x N xs ks hx hk
 theorem C01_keys_contain_one_of (x : PyVal) (xs ks : List PyVal) (hx : keysOf x = some xs)
     (hk : ∀ k ∈ ks, hashable k = true) :
     asBool (Callables.keys_contain_one_of x ks) = some (countPresent xs ks == 1) ∧
     asBool (Callables.keys_contain_at_least_one_of x (.list ks)) = some (decide (countPresent xs ks ≥ 1)) ∧
     asBool (Callables.keys_contain_at_most_one_of x (.list ks)) = some (decide (countPresent xs ks ≤ 1)) := by
-  sorry
+  exact keys_contain_one_of_meaning x xs ks hx hk
 
 /-- set comparisons of the keys of a mapping (hashable keys on both sides) -/
 theorem C01_allowed_keys (x : PyVal) (ks : List PyVal) (h : KeysDefined x ks) :
     ∃ r, Callables.allowed_keys x ks = .ok (.bool r) ∧ (r = true ↔ AllowedKeys x ks) := by
-  sorry
+  exact allowed_keys_spec x ks h
 theorem C01_required_keys (x : PyVal) (ks : List PyVal) (h : KeysDefined x ks) :
     ∃ r, Callables.required_keys x ks = .ok (.bool r) ∧ (r = true ↔ RequiredKeys x ks) := by
-  sorry
+  exact required_keys_spec x ks h
 theorem C01_forbidden_keys (x : PyVal) (ks : List PyVal) (h : KeysDefined x ks) :
     ∃ r, Callables.forbidden_keys x ks = .ok (.bool r) ∧ (r = true ↔ ForbiddenKeys x ks) := by
-  sorry
+  exact forbidden_keys_spec x ks h
 theorem C01_keys_equal_to (x : PyVal) (ks : List PyVal) (h : KeysDefined x ks) :
     ∃ r, Callables.keys_equal_to x ks = .ok (.bool r) ∧ (r = true ↔ (AllowedKeys x ks ∧ RequiredKeys x ks)) := by
-  sorry
+  exact keys_equal_to_spec x ks h
 
 /-- `keys_is_instance(T₁, …)`: every key is an instance of one of the types -/
 theorem C01_keys_is_instance (x : PyVal) (xs : List PyVal) (ts : List PyType) (hx : keysOf x = some xs) :
     asBool (Callables.keys_is_instance x (ts.map PyVal.type)) =
       some (xs.all (fun k => ts.any (fun t => instOf k t))) := by
-  sorry
+  exact keys_is_instance_meaning x xs ts hx
 
 /-- `items_contain(k=v, …)`: every named key is present with an equal value -/
 theorem C01_items_contain (kvs : List (PyVal × PyVal)) (items : List (String × PyVal)) :
@@ -215,7 +220,7 @@ theorem C01_items_contain (kvs : List (PyVal × PyVal)) (items : List (String ×
       some (items.all (fun kv => match Py.dictGet (.str kv.1) kvs with
                                  | some v => pyEq v kv.2
                                  | none => false)) := by
-  sorry
+  exact items_contain_meaning kvs items
 
 /-! ### non-vacuity: concrete instances evaluated by the kernel -/
 
